@@ -14,10 +14,23 @@ pub(super) fn detect_cycles(ast: &Ast, diagnostics: &mut Diagnostics) {
         diagnostics,
     };
 
+    // A type alias can (illegally) refer to itself through anonymous types: `typealias A = Sequence<A>`.
+    // Such a type nests itself without end, so everything that walks through types would recurse forever on it.
+    // We check these first, and stop if any exist, since the checks below walk through the types of fields.
+    let mut found_self_referential_type_alias = false;
+    for node in ast.as_slice() {
+        if let Node::TypeAlias(type_alias) = node {
+            found_self_referential_type_alias |= cycle_detector.check_type_alias_for_cycles(type_alias.borrow());
+        }
+    }
+    if found_self_referential_type_alias {
+        return;
+    }
+
     for node in ast.as_slice() {
         let candidate: &dyn CycleCandidate = match node {
             // Only structs and enums need to be checked for cycles.
-            // Typealias cycles are caught during the type-patching phase.
+            // Cycles of typealiases that only go through other typealiases are caught during the type-patching phase.
             Node::Struct(struct_def) => struct_def.borrow(),
             Node::Enum(enum_def) => enum_def.borrow(),
             // Interfaces can't be infinitely sized, but they can (illegally) inherit from themselves.
@@ -126,6 +139,46 @@ impl<'a> CycleDetector<'a> {
         self.dependency_stack.push((candidate_type_string, origin));
         candidate.check_for_cycles(self);
         self.dependency_stack.pop();
+    }
+
+    /// Checks whether the type that the provided type alias refers to contains itself through anonymous types.
+    /// Returns true (after reporting an error) if it does.
+    fn check_type_alias_for_cycles(&mut self, type_alias: &TypeAlias) -> bool {
+        let mut path = Vec::new();
+        if !Self::anonymous_type_contains_itself(&type_alias.underlying, &mut path) {
+            return false;
+        }
+
+        Diagnostic::new(Error::SelfReferentialTypeAliasNeedsConcreteType {
+            identifier: type_alias.module_scoped_identifier(),
+        })
+        .set_span(type_alias.span())
+        .add_note("the aliased type contains itself, so it can never be fully constructed", None)
+        .push_into(self.diagnostics);
+        true
+    }
+
+    /// Walks through the anonymous types (sequences, dictionaries, and results) that `type_ref` is made of, and returns
+    /// true if one of them is reached again from itself. `path` holds the anonymous types on the path being walked.
+    fn anonymous_type_contains_itself(type_ref: &TypeRef, path: &mut Vec<*const ()>) -> bool {
+        let nested_types = match type_ref.concrete_type() {
+            Types::Sequence(sequence) => vec![&sequence.element_type],
+            Types::Dictionary(dictionary) => vec![&dictionary.key_type, &dictionary.value_type],
+            Types::ResultType(result_type) => vec![&result_type.success_type, &result_type.failure_type],
+            // Named types and primitives end the walk; cycles through structs and enums are checked separately.
+            _ => return false,
+        };
+
+        // Anonymous types have no identifier; they're identified by their address.
+        let address = type_ref.definition() as *const dyn Type as *const ();
+        if path.contains(&address) {
+            return true;
+        }
+
+        path.push(address);
+        let contains_itself = nested_types.into_iter().any(|nested| Self::anonymous_type_contains_itself(nested, path));
+        path.pop();
+        contains_itself
     }
 
     /// Checks whether the provided interface inherits from itself, either directly or through its base interfaces.
